@@ -101,6 +101,16 @@ pub fn fmt_keeps_going(op: &Op) -> bool {
     matches!(op, Op::Fmt(lens) if lens.len() % 2 == 0)
 }
 
+/// Histories with very many operations check the (O(input) per check) invariants only every
+/// `stride`-th successful call, plus after every error and at the end.
+pub fn check_stride(ops: usize) -> usize {
+    if ops <= 400 {
+        1
+    } else {
+        ops / 200
+    }
+}
+
 /// The bytes an op offers at cursor `c`.
 pub fn offered<'a>(op: &Op, input: &'a [u8], c: usize) -> &'a [u8] {
     let c = c.min(input.len());
@@ -245,11 +255,15 @@ pub fn gen_ops(rng: &mut Rng, wl: &Workload, allow_fmt_fail: bool) -> Vec<Op> {
     w[4] = w[4].min(2);
     // very large workloads get few, large operations (thresholds such as 1 KiB / 8 KiB / 64 KiB
     // buffers only show up when a single call carries that much)
-    let size_mode = if n > 4096 { 4 } else { rng.below(4) };
+    // a long-lived stream: thousands of tiny calls on the same object (state that accumulates over
+    // calls, N-th-occurrence effects).  The executors check their invariants with a stride then.
+    let long_lived = n > 600 && rng.chance(1, 5);
+    let size_mode = if long_lived { 0 } else if n > 4096 { 4 } else { rng.below(4) };
+    let op_cap = if long_lived { 80_000 } else { 200 };
     let mut ops = Vec::new();
     let mut covered = 0usize;
     let mut fail_used = !allow_fmt_fail || !rng.chance(1, 40);
-    if n > 4096 && rng.chance(1, 2) {
+    if n > 4096 && !long_lived && rng.chance(1, 2) {
         // the whole (large) input in a single call
         ops.push(match rng.below(4) {
             0 => Op::Write(n),
@@ -259,7 +273,7 @@ pub fn gen_ops(rng: &mut Rng, wl: &Workload, allow_fmt_fail: bool) -> Vec<Op> {
         });
         covered = n;
     }
-    while covered < n + 2 && ops.len() < 200 {
+    while covered < n + 2 && ops.len() < op_cap {
         let len = match size_mode {
             0 => rng.range(1, 4),
             1 => rng.range(1, 24),
